@@ -195,3 +195,75 @@ Proof.
   destruct (range_down iv); (split; [exact W|]); unfold dt_gt, dt_lt; rewrite ?SC1, ?SC2; lia.
 Qed.
 End WallUnits.
+
+(* ---------------------------------------------------------------- termination with fixed-length units in a well-formed zone *)
+Lemma run_terminates_gen iv u n (mu : dtv -> Z) (B : Z) :
+  (forall k x, seq_at iv u n k = Ok x -> within iv x = true -> mu x <= B) ->
+  (forall k x y, seq_at iv u n k = Ok x -> seq_at iv u n (S k) = Ok y -> mu x < mu y) ->
+  forall d k cur, seq_at iv u n k = Ok cur -> B - mu cur < Z.of_nat d -> exists fuel, snd (run_from iv u n fuel k cur) <> GFuel.
+Proof.
+  intros Hb Hs. induction d as [|d IH]; intros k cur Hk Hd.
+  - exists 1%nat. cbn [run_from]. destruct (within iv cur) eqn:Ew; [pose proof (Hb k cur Hk Ew); lia|]. cbn. congruence.
+  - destruct (within iv cur) eqn:Ew.
+    + destruct (seq_at iv u n (S k)) as [nx|ex] eqn:En.
+      * pose proof (Hs k cur nx Hk En) as L.
+        destruct (IH (S k) nx En ltac:(lia)) as [f Hf].
+        exists (S f). cbn [run_from]. rewrite Ew, En. cbn [gcons snd]. exact Hf.
+      * exists 1%nat. cbn [run_from]. rewrite Ew, En. cbn. congruence.
+    + exists 1%nat. cbn [run_from]. rewrite Ew. cbn. congruence.
+Qed.
+
+Fixpoint off_bound_l (init : Z) (tr : list (Z * Z)) : Z :=
+  match tr with
+  | [] => Z.abs init
+  | (_, o) :: r => Z.max (Z.abs init) (off_bound_l o r)
+  end.
+
+Lemma off_local_l_bound : forall tr init w f, Z.abs (off_local_l init tr w f) <= off_bound_l init tr.
+Proof.
+  induction tr as [|[t o] r IH]; intros init w f; cbn [off_local_l off_bound_l]; [lia|].
+  destruct (w <? t + wallb f init o); [lia|]. specialize (IH o w f). lia.
+Qed.
+
+Lemma seq_fixed_inst iv u n k x :
+  wf_zone (dv_zone (iv_start iv)) = true -> dv_kind (iv_start iv) = K_AWARE -> 4 <= u <= 7 -> seq_at iv u n k = Ok x ->
+  dv_inst x = dv_inst (iv_start iv) + amount_at iv n k * unit_len u /\ dv_zone x = dv_zone (iv_start iv) /\ dv_tzid x = dv_tzid (iv_start iv).
+Proof.
+  intros Hwf Hk Hu H. destruct k as [|k].
+  - cbn in H. injection H as <-. unfold amount_at. destruct (range_down iv); repeat split; lia.
+  - cbn [seq_at] in H. unfold call_method, range_meth in H. unfold amount_at.
+    destruct (range_down iv).
+    + change (M_subtract =? M_subtract) with true in H. cbv iota in H.
+      destruct (shift_fixed_units _ _ _ _ Hwf Hk Hu H) as (A & _ & _ & D & E). repeat split; assumption.
+    + change (M_add =? M_subtract) with false in H. cbv iota in H.
+      destruct (shift_fixed_units _ _ _ _ Hwf Hk Hu H) as (A & _ & _ & D & E). repeat split; assumption.
+Qed.
+
+Theorem range_finite_fixed_units_l iv u n :
+  wf_zone (dv_zone (iv_start iv)) = true -> dv_kind (iv_start iv) = K_AWARE -> 4 <= u <= 7 -> 1 <= n ->
+  exists fuel, snd (py_range fuel iv u n) <> GFuel.
+Proof.
+  intros Hwf Hk Hu Hn.
+  set (s := iv_start iv). set (e := iv_end iv). set (z := dv_zone s).
+  set (Bo := off_bound_l (z_init z) (z_trans z)).
+  set (mu := fun x : dtv => if range_down iv then - dv_inst x else dv_inst x).
+  set (B := if range_down iv then Z.max (- dv_inst e) (MEG * Bo - dv_W e) else Z.max (dv_inst e) (dv_W e + MEG * Bo)).
+  assert (Hb : forall k x, seq_at iv u n k = Ok x -> within iv x = true -> mu x <= B).
+  { intros k x Hx Hw. destruct (seq_fixed_inst _ _ _ _ _ Hwf Hk Hu Hx) as (_ & Zx & _).
+    pose proof (off_local_l_bound (z_trans z) (z_init z) (dv_W x / MEG) (dv_f x)) as Ob. fold Bo in Ob.
+    assert (Ix : dv_inst x = dv_W x - MEG * off_local_l (z_init z) (z_trans z) (dv_W x / MEG) (dv_f x)).
+    { unfold dv_inst, inst, off_local. rewrite Zx. reflexivity. }
+    unfold within, apply_op, range_op in Hw. fold e in Hw. unfold mu, B.
+    destruct (range_down iv).
+    - change (OP_ge =? OP_ge) with true in Hw. cbv iota in Hw. unfold dt_ge, dt_le in Hw.
+      destruct (same_clock e x); unfold MEG in *; lia.
+    - change (OP_le =? OP_ge) with false in Hw. cbv iota in Hw. unfold dt_le in Hw.
+      destruct (same_clock x e); unfold MEG in *; lia. }
+  assert (Hs : forall k x y, seq_at iv u n k = Ok x -> seq_at iv u n (S k) = Ok y -> mu x < mu y).
+  { intros k x y Hx Hy.
+    destruct (seq_fixed_inst _ _ _ _ _ Hwf Hk Hu Hx) as (Ax & _). destruct (seq_fixed_inst _ _ _ _ _ Hwf Hk Hu Hy) as (Ay & _).
+    pose proof (amount_at_lt iv n k (S k) Hn ltac:(lia)) as L. pose proof (unit_len_pos u). unfold mu.
+    destruct (range_down iv); nia. }
+  destruct (run_terminates_gen iv u n mu B Hb Hs (Z.to_nat (Z.abs (B - mu s) + 1)) 0 s eq_refl ltac:(lia)) as [f Hf].
+  exists f. rewrite py_range_run. exact Hf.
+Qed.
